@@ -41,8 +41,9 @@ CHECKS = {
             "allowed rewrites has the same result, exception and effect order, and rejects the relation extended by the named "
             "deviations. The real PythonASTOptimizer is wrapped while the bundled namespaces are compiled from source: every "
             "changed module body is encoded structurally and TLC decides whether it is obtained by the allowed rewrites only "
-            "(otherwise which named deviation explains it). The C01 corpus and operator-specific programs are executed with "
-            "the pass on and off and must agree.",
+            "(otherwise which named deviation explains it). The C01 corpus, every rewritten operator over operand shapes (constant, "
+            "name, call, operator expression / subscript / attribute holding a call), forms in statement position and nested-def "
+            "/ dead-code block programs are executed with the pass on and off and must agree; their AST pairs go to TLC too.",
             "Trusted: TLC; the structural encoding of Python ASTs (pyast_enc.py: statements structured, expressions abstracted "
             "to a hash where no operator call or native operator occurs below, `prior` = names declared global earlier in the "
             "same function). Purity of an `if` test is judged by the specification from the encoded structure.",
@@ -261,7 +262,8 @@ CHECKS["C09"] = (
     "let / fn / loop and the real reader; macroexpansion checked differentially",
     "TLC checks that Bind is total, :or applies exactly when Get reports absence, :as is the value itself, and for templates "
     "that evaluating Expand(t) equals the direct reading, gensyms are one symbol per template and fresh across templates, "
-    "every non-special unqualified symbol is qualified; negative models are rejected. The nth/nthnext/get primitive table is "
+    "every non-special unqualified symbol is qualified (a Var referred under another name resolves to its own name), a "
+    "template nested in an unquote has gensyms of its own; negative models are rejected. The nth/nthnext/get primitive table is "
     "re-validated against the real functions on every run. Every row runs through let, fn, loop (+recur), keyword-argument and "
     "rest-argument fns with several seq flavours; templates are read in really established namespace states and compared up "
     "to a gensym bijection, then evaluated; ~1000 forms over 40 macro contexts are evaluated directly, after macroexpand and "
@@ -279,7 +281,7 @@ CHECKS["C10"] = (
     "def-only programs behave alike under direct linking and var indirection; with a deviation on TLC prints the minimal "
     "witness. Histories of def / redef / ns switch / alias / refer / alter-var-root (exhaustive to length 3-4 per collision "
     "class, simulated to 12 over the whole pool) are replayed in fresh namespace pairs; afterwards every spelling (bare, "
-    "alias-qualified, fully qualified, shadowed by a local, var, binding) is compiled and evaluated and compared; a mismatch "
+    "alias-qualified, fully qualified, shadowed by a local, var, binding, def-ed again while thread-bound) is compiled and evaluated and compared; a mismatch "
     "is classified by the smallest deviation set whose as-built outcome equals the observation.",
     "Trusted: TLC; the munge table supplied to the model is checked against the real munge at start-up. Where the property is "
     "silent (alias/name for a merely referred name, (var private), binding of a non-dynamic Var) nothing is compared.",
